@@ -178,14 +178,32 @@ func writeNamedType(w *formatting.IndentedWriter, td *dsl.NamedType) {
 		}
 	}
 
-	// // If the NamedType is Generic and resolves to a RecordDefinition, we can drop the type parameters in the alias declaration
-	if dsl.IsGeneric(td) && resolvesToRecord {
+	// // If the NamedType is Generic and resolves to a RecordDefinition, we can drop the type parameters in the alias declaration,
+	// provided that it passes on exactly its own type parameters, in order
+	if dsl.IsGeneric(td) && resolvesToRecord && forwardsOwnTypeParameters(td) {
 		fmt.Fprintf(w, "%s = %s\n", common.TypeIdentifierName(td.Name), common.TypeSyntaxWithoutTypeParameters(td.Type, td.Namespace))
 	} else {
 		fmt.Fprintf(w, "%s = %s\n", common.TypeIdentifierName(td.Name), common.TypeSyntax(td.Type, td.Namespace))
 	}
 	common.WriteDocstring(w, td.Comment)
 	w.Indent().WriteStringln("")
+}
+
+func forwardsOwnTypeParameters(td *dsl.NamedType) bool {
+	st, ok := td.Type.(*dsl.SimpleType)
+	if !ok || len(st.TypeArguments) != len(td.TypeParameters) {
+		return false
+	}
+	for i, arg := range st.TypeArguments {
+		argType, ok := arg.(*dsl.SimpleType)
+		if !ok {
+			return false
+		}
+		if p, ok := argType.ResolvedDefinition.(*dsl.GenericTypeParameter); !ok || p.Name != td.TypeParameters[i].Name {
+			return false
+		}
+	}
+	return true
 }
 
 func writeRecord(w *formatting.IndentedWriter, rec *dsl.RecordDefinition, st dsl.SymbolTable) {
